@@ -68,6 +68,13 @@ func (f *filler) newMarker(path string) string {
 	return s
 }
 
+// durationValues: what EVERY duration-typed field (api.DurationConfig, time.Duration) is filled from: absent/zero, one
+// nanosecond, below / at / just under the millisecond, fractional milliseconds, seconds, hours, more than a day, the maximum
+var durationValues = []time.Duration{0, 0, 1, 200 * time.Microsecond, 500 * time.Microsecond, 999 * time.Microsecond, time.Millisecond,
+	1500 * time.Microsecond, time.Second, 1500 * time.Millisecond, 90 * time.Second, 90 * time.Minute, 25 * time.Hour, 1<<63 - 1}
+
+func (f *filler) duration() time.Duration { return durationValues[f.r.Intn(len(durationValues))] }
+
 // blobJSON: what an interface{} / RawMessage position at `path` is filled with
 func (f *filler) blobJSON(path string, depth int) interface{} {
 	if f.blobKeys && depth == 0 && f.r.Pct(30) {
@@ -134,10 +141,10 @@ func (f *filler) fill(v reflect.Value, depth int, path string) {
 		}
 		return
 	case t == durationCfT:
-		v.Field(0).SetInt(int64([]time.Duration{0, time.Second, 1500 * time.Millisecond, 2 * time.Minute, 90 * time.Second}[f.r.Intn(5)]))
+		v.Field(0).SetInt(int64(f.duration()))
 		return
 	case t == durationT:
-		v.SetInt(int64([]time.Duration{0, time.Second, 1500 * time.Millisecond, 2 * time.Minute}[f.r.Intn(4)]))
+		v.SetInt(int64(f.duration()))
 		return
 	}
 	switch t.Kind() {
